@@ -900,9 +900,7 @@ class ServiceDiscover:
         for addr, services in self.found_services.store.items():
             for s in services:
                 if service.matches_service(s):
-                    asyncio.get_event_loop().call_soon(
-                        listener.service_offered, s, addr
-                    )
+                    listener.service_offered(s, addr)
 
     def stop_watch_service(
         self, service: someip.config.Service, listener: ClientServiceListener
@@ -913,16 +911,14 @@ class ServiceDiscover:
         for addr, services in self.found_services.store.items():
             for s in services:
                 if service.matches_service(s):
-                    asyncio.get_event_loop().call_soon(
-                        listener.service_stopped, s, addr
-                    )
+                    listener.service_stopped(s, addr)
 
     def watch_all_services(self, listener: ClientServiceListener) -> None:
         self.watcher_all_services.add(listener)
 
         for addr, services in self.found_services.store.items():
             for s in services:
-                asyncio.get_event_loop().call_soon(listener.service_offered, s, addr)
+                listener.service_offered(s, addr)
 
     def stop_watch_all_services(self, listener: ClientServiceListener) -> None:
         self.watcher_all_services.remove(listener)
@@ -930,7 +926,7 @@ class ServiceDiscover:
         # TODO verify if this makes sense
         for addr, services in self.found_services.store.items():
             for s in services:
-                asyncio.get_event_loop().call_soon(listener.service_stopped, s, addr)
+                listener.service_stopped(s, addr)
 
     def find_subscribe_eventgroup(self, eventgroup: someip.config.Eventgroup):
         self.watch_service(
